@@ -1220,6 +1220,33 @@ void gen_c08(Gen &g) {
     }
     t.ops.push_back(g.mk(OP_EXEC, 1));
   }
+  {
+    // patch the beginning and carry on at the end: rewind to 0, re-assemble the first lines, move the offset back to
+    // where the program ended and append - nothing in between may be lost (plain mode: positions are sums of lengths)
+    long total = 0;
+    bool known = mode < 6 && !huge;
+    for (const std::string &l : prog) {
+      int ll = line_len(l, o);
+      if (ll <= 0 && !(corpus_flags(l) & CF_FILLER)) known = false;
+      total += ll;
+    }
+    if (known && total > 64 && r.chance(1, 4)) {
+      Op so = g.mk(OP_OFFSET, 0);
+      so.k = 0;
+      t.ops.push_back(so);
+      Op a = g.mk(OP_ASM, 0);
+      for (size_t q = 0; q < prog.size() && q < 3; q++) a.lines.push_back(prog[q]);
+      a.alias = false;
+      t.ops.push_back(a);
+      Op back = g.mk(OP_OFFSET, 0);
+      back.k = total;
+      t.ops.push_back(back);
+      Op b = g.mk(OP_ASM, 0);
+      b.lines = gen_exec_program(r, (int)r.range(1, 30), o, 0);
+      b.alias = false;
+      t.ops.push_back(b);
+    }
+  }
   if (r.chance(1, 3)) {
     // rewind and assemble a second program over the first
     Op so = g.mk(OP_OFFSET, 0);
